@@ -328,9 +328,15 @@ func runWorker(args []string) int {
 			small, execs := core.Shrink(tp.Rec, class, oracle, maxExec, maxDur)
 			fin := execTape(*prop, small, true, env)
 			if fin.V == nil || fin.V.Class != class {
-				res.Harness = fmt.Sprintf("run %d: minimised tape no longer fails with %s", r, class)
-				code = 2
-				break
+				// The verdict depends on state the process carries from one execution to the next
+				// (that is what a history-dependent violation looks like from inside): in-process
+				// minimisation is not trustworthy then. Keep the original tape and the original
+				// verdict; the orchestrator re-establishes it with the worker's history (exec-seq).
+				small = tp.Rec
+				fin = execTape(*prop, small, true, env)
+				if fin.V == nil || fin.V.Class != class {
+					fin.V = rr.V
+				}
 			}
 			rf := replayFile{Property: *prop, Seed: *seed, Run: r, Tier: *tier, Class: fin.V.Class, Facts: fin.V.Facts, Msg: fin.V.Msg, Event: fin.V.Event,
 				Digest: fmt.Sprintf("%016x", fin.Ctx.L.Digest), Tape: small, Desc: fin.Ctx.Desc, Trace: tail(fin.Ctx.L.Lines, 400), OrigTape: len(tp.Rec)}
